@@ -3,8 +3,9 @@
 
      sptensor.collapse (sptensor.py:505):   dims, _ = tt_dimscheck(self.ndims, dims=dims)            (dims may be None: all modes)
      sptensor.scale    (sptensor.py:1773):  dims, _ = tt_dimscheck(self.ndims, dims=dims)
-                                            if self.nnz == 0:            (repair d89c921: the shape test comes first for a tensor / sptensor factor)
+                                            if self.nnz == 0:            (repairs d89c921 + 98f7017: the shape test comes first for EVERY factor class)
                                                 if isinstance(factor, (tensor, sptensor)) and not array_equal(factor.shape, shape[dims]): reject
+                                                if isinstance(factor, np.ndarray) and factor.shape != tuple(shape[dims]): reject
                                                 return self.copy()
                                             tensor / sptensor factor: if not array_equal(factor.shape, shape[dims]): reject
                                             ndarray factor:           if factor.shape[0] != shape[dims]: reject
@@ -34,7 +35,7 @@ Definition impl_scale_sp_req (S : sparse V) (dims : vec) (nd : bool) (fshape : s
   | Ok (sd, _) =>
       let want := pick 0 (nats sd) (sshape S) in
       if Nat.eqb (length (ssubs S)) 0
-      then (if negb nd && negb (idx_eqb fshape want) then Err else Ok S)
+      then (if negb (idx_eqb fshape want) then Err else Ok S)
       else (if idx_eqb fshape want then Ok (impl_scale_sp vmul isz S (nats sd) g) else Err)
   | Err => Err
   end.
